@@ -162,7 +162,14 @@ func (e *Engine) addContractFile(cf *ContractFile) {
 		}
 	}
 	for _, a := range cf.Aliases {
-		e.ghostFields[a[2]+"."+a[0]] = e.ghostFields[a[2]+"."+a[1]]
+		target := a[2] + "." + a[1]
+		if i := strings.LastIndex(a[1], "."); i >= 0 {
+			// pkgname.Type in another package (resolved through the file's imports)
+			if path := cf.Imports[a[1][:i]]; path != "" {
+				target = path + "." + a[1][i+1:]
+			}
+		}
+		e.ghostFields[a[2]+"."+a[0]] = e.ghostFields[target]
 	}
 }
 
@@ -495,6 +502,19 @@ func (vc *VC) finish() {
 			p := ps.At(i)
 			if t, ok := vc.entry.vars[p]; ok && p.Name() != "" && p.Name() != "_" && !vc.cellVars[p] {
 				ctx.vars[p.Name()] = t
+				// except a slice parameter the contract declares as mutated in place (`modifies s`): there the name
+				// denotes what the caller's slice holds at exit, and old(s) what was passed
+				for _, m := range vc.contract.Modifies {
+					if id, ok := m.Expr.(*SIdent); ok && id.Name == p.Name() && t.Sort != nil && t.Sort.Kind == KSlice {
+						if cur, ok := final.vars[p]; ok {
+							ctx.vars[p.Name()] = cur
+							if ctx.oldVars == nil {
+								ctx.oldVars = map[string]Term{}
+							}
+							ctx.oldVars[p.Name()] = t
+						}
+					}
+				}
 			}
 		}
 		if r := vc.unit.Sig.Recv(); r != nil {
